@@ -177,7 +177,7 @@ func vMergeInputs() ([]segment.Segment, []*roaring.Bitmap, *sSpec) {
 	docs0, sp0 := vGenBatchFixed(gCfg{prefix: "a", idBase: "a", nDocs: 2, wide: -1,
 		fields: []gField{{name: "f", terms: []string{"a", "b"}, dv: true, store: true, fixFreq: true}}})
 	docs1, sp1 := vGenBatchFixed(gCfg{prefix: "b", idBase: "b", nDocs: 1, wide: -1,
-		fields: []gField{{name: "f", terms: []string{"a"}, dv: true, store: true, fixFreq: true}, {name: "g", terms: []string{"c"}, store: true, fixFreq: true}}})
+		fields: []gField{{name: "f", terms: []string{"a"}, dv: true, store: true, fixFreq: true}, {name: "g", terms: []string{"c"}, dv: true, store: true, fixFreq: true}}}) // (the alphabetically last field has doc values too)
 	var z ZapPlugin
 	s0, _, err := z.newWithChunkMode(docs0, DefaultChunkMode)
 	vAssert(err == nil, "build0")
@@ -201,6 +201,11 @@ func vCheckMerged(path string, size uint64, want *sSpec, tag string) {
 	vAssert(m.(*Segment).Version() == Version, tag+"version")
 	sCheckStored(m, want, tag+"m-")
 	sCheckPostings(m, want, tag+"m-")
+	order := []int{}
+	for d := range want.docs {
+		order = append(order, d)
+	}
+	sCheckDocValuesX(m, want, order, tag+"m-", false)
 	vAssert(m.Close() == nil, tag+"close")
 }
 
